@@ -174,6 +174,9 @@ def check_case(case):
                 'result': {'steps': 0, 'kind': rr['kind'], 'exit': rr['exit'], 'events': [], 'files': rr['files'],
                            'fired': [], 'gaps': []}}
     r = child.run_world(w)
+    if r['kind'] == 'wall_timeout' and case.get('wall_verdict'):
+        # a statement the tool rejects within milliseconds: confirm with twice the wall budget before calling it
+        r = child.run_world(w, wall_timeout=2 * child.WALL_TIMEOUT)
     if case.get('faults') and all(f.get('kind') == 'stdout_epipe' for f in case['faults']) and failed(r):
         # what the complete image of this very case looks like (fault-free twin), for the stdout-failure clause
         twin = dict(case, faults=[])
@@ -287,7 +290,7 @@ def io_fault_variants(case, base_r, rnd):
     return out
 
 
-def semantic_variants(case, info, rnd):
+def semantic_variants(case, info, rnd, extent=None):
     """E1-E4: corruptions that must be rejected."""
     out = []
     prog = case['prog']
@@ -393,6 +396,37 @@ def semantic_variants(case, info, rnd):
             joined = ', '.join(texts)
             joined = [joined + ',', ',' + joined, joined.replace(',', ',,', 1) if ',' in joined else joined + ', ,'][form]
             insert(f'  {m} {joined}', 'E3-stray-comma')
+    # E3: an include directive with an ordinary long file name whose closing quote is missing or garbled
+    long_name = ('lib_' + '_'.join(rnd.choice(['math', 'video', 'kernel', 'io', 'tables', 'v2', 'strings', 'x86ish'])
+                                   for _ in range(12)))[:rnd.randrange(36, 52)] + '.asm'
+    c = copy.deepcopy(case)
+    c['inject'] = {'pos': rnd.randrange(0, n), 'line': '#include "' + long_name + rnd.choice(['', "'", ' ', '>', '\\'])}
+    c['expect_fail'] = 'E3-malformed-include'
+    c['mutation'] = {'kind': 'E3-malformed-include'}
+    c['wall_verdict'] = True
+    out.append(c)
+    # E2: a byte that is no character at all inside a mnemonic (the token it garbles is no instruction in any encoding)
+    instr = [i for i, ln in enumerate(prog) if re.match(r'^\s+([a-z]\w+)', ln) and re.match(r'^\s+([a-z]\w+)', ln).group(1) in allops]
+    if instr:
+        i = rnd.choice(instr)
+        m = re.match(r'^(\s+)([a-z]\w+)(.*)$', prog[i])
+        cut = rnd.randrange(1, len(m.group(2)))
+        c = copy.deepcopy(case)
+        del c['prog'][i]
+        c['inject'] = {'pos': i, 'line': m.group(1) + m.group(2)[:cut] + rnd.choice('\xff\xfe\xc3\x80') + m.group(2)[cut:] + m.group(3)}
+        c['expect_fail'] = 'E2-undecodable-byte-in-mnemonic'
+        c['mutation'] = {'kind': 'E2-undecodable'}
+        out.append(c)
+    # E4: a displacement its 8-bit field cannot hold (with and without configured limits)
+    rel_ops = [(m, ops) for m, vs in info['sigs'].items() for ops in vs if 'rel' in ops]
+    top = (1 << info['addr_bits']) - 1
+    flat = prog + [ln for ls in case.get('includes', {}).values() for ln in ls]
+    if rel_ops and info['addr_bits'] >= 12 and extent is not None and top - (info['origin'] + extent) > 600 and not any(
+            w in ln for ln in flat for w in ('.org', '.memzone', '.align', '.page')):
+        pg2 = gen.ProgGen(random.Random(rnd.random()), info)
+        m, ops = rnd.choice(rel_ops)
+        texts = ['{' + str(top - rnd.randrange(0, 40)) + '}' if k == 'rel' else pg2.operand(k) for k in ops]
+        insert(f'  {m} ' + ', '.join(texts), 'E4-overflow-rel')
     # E4: value the field cannot hold (only for numeric kinds that appear alone, to keep the statement well-formed)
     width = info['width']
     cands = []
@@ -528,7 +562,7 @@ def explore(subseed, cfg):
         if r['kind'] == 'crash':
             out['harness'].append(f'child crash: {r.get("exc")}')
             return res
-        if r['kind'] == 'wall_timeout':
+        if r['kind'] == 'wall_timeout' and not res['violations']:
             out['harness'].append(f'HARNESS-TIMEOUT group={group} mutation={c.get("mutation")}')
             return res
         for f in r['fired']:
@@ -592,7 +626,8 @@ def explore(subseed, cfg):
         run(c, 'zero:' + c['mutation']['line'])
         out['probes']['zero_length_inserted'] = out['probes'].get('zero_length_inserted', 0) + 1
     # (3) E1-E4
-    for c in semantic_variants(case, info, rnd):
+    extent = len(br['files'].get(image_path(case)) or '') if case.get('binary', True) else None
+    for c in semantic_variants(case, info, rnd, extent):
         run(c, 'sem:' + c['expect_fail'])
         out['probes']['E:' + c['expect_fail'].split('-')[0]] = out['probes'].get('E:' + c['expect_fail'].split('-')[0], 0) + 1
     # (4) sampled textual corruptions (1-4 in sequence) and fault pairs
@@ -620,7 +655,7 @@ def explore(subseed, cfg):
     # hash seeds, `python -O` / `-OO` where asserts are compiled away) - rejected programs must stay rejected, closed
     if (subseed & 0xFFFFFFFF) % cfg.get('xproc_every', 6) == 0:
         from sim import xproc
-        sem = semantic_variants(case, info, random.Random(subseed ^ 0x5EED))
+        sem = semantic_variants(case, info, random.Random(subseed ^ 0x5EED), extent)
         picks = rnd.sample(sem, min(cfg.get('xproc_cases', 5), len(sem)))
         for i, c in enumerate(picks):
             pyopt = [1, 2, 0][i % 3]
